@@ -40,7 +40,7 @@ func init() {
 			"a failed unset must return non-zero and leave bookmarks.json byte-identical; at the end every key is probed. non-trivial & distinct = histories with >=2 overwrites, >=1 successful and >=1 failed unset and a clear followed by further sets, by hash",
 		Assumptions: []string{"names starting with '-' (read as flags), names containing ' -> ' and file arguments starting with '@' are outside the stated domain; concurrent invocations are not claimed"},
 		MaxShards:   16,
-		Planned:     func(tier string, seed uint64) int64 { return map[string]int64{"quick": 200, "thorough": 12000}[tier] },
+		Planned:     func(tier string, seed uint64) int64 { return map[string]int64{"quick": 200, "thorough": 6000}[tier] },
 		Run:         runC19,
 	})
 }
@@ -52,7 +52,7 @@ type c19Op struct {
 }
 
 func runC19(e *core.Env) {
-	total := int64(e.N(200, 12000))
+	total := int64(e.N(200, 6000))
 	for i := int64(0); i < total; i++ {
 		if !e.Mine(i) {
 			continue
